@@ -301,7 +301,7 @@ def upown_gen(rng, tier):
         add(up, plan, q0=q0)
     for plan in UPOWN_H1:
         add("https", plan, alpn="h1")
-    reps = budget(tier, 24, 600)
+    reps = budget(tier, 60, 600)
     for _ in range(reps):
         up = rng.choice(UPS + ["udp", "udp"])
         plan = [rng.choice(_upown_alpha(up)) for _ in range(rng.randint(1, 5))]
@@ -491,15 +491,27 @@ PROPS["C18"] = dict(
          "(fake quic.Connection counting CloseWithError) with a gated counting dialer, Close placed at a random point (classes: Close first / while dials or replies are "
          "pending / at quiescence, honouring and context-ignoring dialer, idle timer); upclose: every upstream "
          "scheme x {never used, used, exchange in flight against a silent peer}, one child process per case; "
+         "upown: every upstream scheme driven by a plan of answered / never-answered exchanges against a name-steered "
+         "fake server so that every transport and socket the upstream owns exists at Close, idle and in flight (udp: "
+         "UDP socket + TCP fallback connections after TC=1 answers; reuse: idle + busy connections; pipelined: shared, "
+         "busy and end-of-life connections via a preset wire id; https over h2 and http/1.1; h3; quic), then Close, "
+         "Close, in-flight exchanges, a new exchange on the upstream and on each leg of a udp upstream, sockets of "
+         "the process (Opt.Control + /proc/self/fd) and connections still open at the server; compared with the "
+         "composite model (Net/ShutdownOwn.v); "
          "startup: failing listener at every position of a list holding all 8 listener kinds (port in use, "
          "unknown protocol, bad certificate path, bad address), failing upstream / domain set / rule / cache / "
          "metrics listener, in-process and through the real binary; distinct = distinct case line",
     assumptions=["loopback sockets; net.Pipe connections for the scripted transports; quiescence = no observable "
                  "activity for 14 ms; Close must return within 2 s, router close within 5 s",
                  "injected dialers honour context cancellation (dm=honour) or complete late (dm=ignore)"],
-    trusted=["C18: small-step models at atomic-action granularity; Go mutex/channel atomicity, net/http, quic-go, "
+    trusted=["C18: which parts an upstream owns and which its Close names (uo_owned, uo_close_prog) is read off "
+             "upstream.go by hand and tied to the code by kind upown; the library parts (connTracker, quic.Transport, "
+             "UDP socket) are counters, not models of net/http / quic-go",
+             "C18: small-step models at atomic-action granularity; Go mutex/channel atomicity, net/http, quic-go, "
              "gnet, fasthttp modelled not verified; 'returns promptly' is timed, not proved"],
-    level_note="partial: the theorems cover the close-race logic of the reuse and pipeline transports at "
-               "atomic-action granularity and the start-up/close sequence of the router; promptness, the kernel's "
-               "socket release and the HTTP/QUIC libraries are sampled by the harness",
+    level_note="partial: the theorems cover the close-race logic of the reuse, pipeline and quic transports at "
+               "atomic-action granularity, the upstream as a composite of the transports / sockets it owns (Close "
+               "closes every owned part exactly once, from every reachable state) and the start-up/close sequence of "
+               "the router; promptness, the kernel's socket release and the HTTP/QUIC libraries are sampled by the "
+               "harness",
 )
